@@ -2,6 +2,7 @@ package c03
 
 import (
 	"fmt"
+	"math"
 	"os"
 	"sort"
 	"strings"
@@ -139,6 +140,25 @@ func TestReplay(t *testing.T) {
 		t.Fatal(err)
 	}
 	x := string(buf)
+	if strings.Contains(x, "constant.NewFloat(types.") {
+		// cases of NewFloatRounding: one per line
+		for _, l := range strings.Split(x, "\n") {
+			var kind string
+			var bits uint64
+			l = strings.TrimSpace(l)
+			if i := strings.Index(l, "constant.NewFloat(types."); i >= 0 {
+				rest := strings.NewReplacer(",", " ", "(", " ", ")", " ").Replace(l[i+len("constant.NewFloat(types."):])
+				if n, _ := fmt.Sscanf(rest, "%s math.Float64frombits 0x%X", &kind, &bits); n == 2 {
+					for _, kk := range floatKinds {
+						if kk.k.Name == kind {
+							checkNewFloat(t, "Replay", kk.k, kk.t, math.Float64frombits(bits))
+						}
+					}
+				}
+			}
+		}
+		return
+	}
 	y, _, e, p := lx.ParsePrint(x)
 	if e != nil || p != nil {
 		hx.Fail(t, "Replay", "ll", x, "parse/print of the replay program fails: %v %s", e, p)
